@@ -83,6 +83,7 @@ def verify(engine: Engine, spec: FunctionSpec) -> FunctionResult:
                 res.exits += 1
                 raise PathEnd
             recv, args, kwargs = spec.setup(run)
+            run.pc_base = len(run.pc)  # hypotheses up to here are the function's preconditions (see Loop.merge)
             pre_state = getattr(run, "pre", None)
             try:
                 out = run.call_function(fi, recv, args, kwargs, None)
